@@ -719,7 +719,11 @@ def det_queries(cases):
                 res = eng.query(db, q)
                 vmap = {}
                 r["ok"] = 1
-                r["ans"] = [T.from_problog(q.with_args(*a), {}) for a in res]
+                try:
+                    r["ans"] = [T.from_problog(q.with_args(*a), {}) for a in res]
+                except T.TooLarge:
+                    r["ans"] = []
+                    r["skip"] = 1
             except ProbLogError as e:
                 r["ok"] = 2
                 r["ans"] = []
